@@ -36,11 +36,14 @@ impl BracketAtom {
         match self {
             BracketAtom::Char(c) => return BracketAtom::fmt_regex_char(*c, regex),
             BracketAtom::CollatingSymbol(value) | BracketAtom::EquivalenceClass(value) => {
-                if !value.is_empty() {
-                    regex.write_str(value)
-                } else {
+                if value.is_empty() {
                     return Err(Error::EmptyCollatingSymbol);
                 }
+                // The value stands for its literal characters, so any character
+                // that is special in a regular expression must be escaped.
+                return value
+                    .chars()
+                    .try_for_each(|c| BracketAtom::fmt_regex_char(c, regex));
             }
             BracketAtom::CharClass(class) => {
                 if ClassAsciiKind::from_name(class).is_some() {
@@ -359,6 +362,34 @@ mod tests {
         let ast = Ast { atoms };
         let regex = ast.to_regex(&Config::default()).unwrap();
         assert_eq!(regex, "[x]");
+    }
+
+    #[test]
+    fn special_characters_in_collating_symbol_and_equivalence_class() {
+        let bracket = Bracket {
+            complement: false,
+            items: vec![
+                BracketItem::Atom(BracketAtom::CollatingSymbol("]".to_string())),
+                BracketItem::Atom(BracketAtom::EquivalenceClass("^".to_string())),
+                BracketItem::Atom(BracketAtom::CollatingSymbol("-".to_string())),
+            ],
+        };
+        let atoms = vec![Atom::Bracket(bracket)];
+        let ast = Ast { atoms };
+        let regex = ast.to_regex(&Config::default()).unwrap();
+        assert_eq!(regex, r"[\]\^\-]");
+
+        let bracket = Bracket {
+            complement: false,
+            items: vec![
+                BracketItem::Atom(BracketAtom::Char('a')),
+                BracketItem::Atom(BracketAtom::CollatingSymbol("a|b".to_string())),
+            ],
+        };
+        let atoms = vec![Atom::Bracket(bracket)];
+        let ast = Ast { atoms };
+        let regex = ast.to_regex(&Config::default()).unwrap();
+        assert_eq!(regex, r"(?:[a]|a\|b)");
     }
 
     #[test]
